@@ -39,6 +39,10 @@ type script struct {
 	peerFin  bool
 	wscale   int
 	evKinds  map[string]int
+	advAck   uint32 // last ack / window field seen from the stack
+	advWnd   uint16
+	rcvScale uint
+	bigRcv   bool
 }
 
 var wnds = []uint16{0, 1, 7, 50, 200, 1000, 4000, 30000, 65535}
@@ -57,6 +61,9 @@ func (s *script) snapObs(ev string, res string) bool {
 		if int32(end-s.maxEnd) > 0 {
 			s.maxEnd = end
 		}
+		if f.Flags&netx.FlagRst == 0 {
+			s.advAck, s.advWnd = f.Ack, f.Wnd
+		}
 	}
 	st := s.c.Snap()
 	s.steps = append(s.steps, fmt.Sprintf("mkObs (%s) %s %s (%s)", ev, tcpx.CoqState(st), tcpx.CoqFrames(fr), res))
@@ -67,6 +74,11 @@ func (s *script) pickWnd() uint16 {
 	switch s.mix {
 	case "c04":
 		return wnds[s.r.Intn(len(wnds))]
+	case "c02":
+		if s.r.Intn(3) == 0 {
+			return wnds[s.r.Intn(5)] // 0, 1, 7, 50, 200: data stays queued while the connection closes
+		}
+		return 30000
 	default:
 		if s.r.Intn(6) == 0 {
 			return wnds[s.r.Intn(len(wnds))]
@@ -146,6 +158,30 @@ func (s *script) peerData(kind int) bool {
 	return alive
 }
 
+// peerFill sends in-order data that exactly respects the stack's latest advertised right edge
+// (ack + wnd<<scale), in chunks of arbitrary parity, so that a receive buffer with window scaling
+// can be filled to within 2^scale-1 bytes of its end.
+func (s *script) peerFill() bool {
+	edge := s.advAck + uint32(s.advWnd)<<s.rcvScale
+	room := int(int32(edge - s.seqOf(s.pNext)))
+	if room <= 0 {
+		return s.read()
+	}
+	n := 1 + s.r.Intn(20000)
+	if s.r.Intn(3) == 0 || n > room {
+		n = room
+	}
+	if s.pNext+n > len(s.peer) {
+		n = len(s.peer) - s.pNext
+	}
+	if n <= 0 {
+		return true
+	}
+	t := netx.TCPSeg{Seq: s.seqOf(s.pNext), Ack: s.ackNow(), Flags: netx.FlagAck, Wnd: 30000, Payload: s.peer[s.pNext : s.pNext+n]}
+	s.pNext += n
+	return s.seg(t)
+}
+
 func (s *script) ackNow() uint32 {
 	// cumulative ack of everything seen
 	return s.maxEnd
@@ -204,7 +240,7 @@ func (s *script) write() bool {
 	if n <= 0 {
 		n = 1
 	}
-	if s.mix != "c04" && s.mix != "c05" && n > 6*s.mss {
+	if s.mix != "c04" && s.mix != "c05" && s.mix != "c02" && n > 6*s.mss {
 		n = 2*s.mss + 3
 	}
 	b := make([]byte, n)
@@ -295,6 +331,22 @@ func (s *script) event() bool {
 			return s.read()
 		}
 	case "c04":
+		if s.bigRcv {
+			switch {
+			case x < 60:
+				s.count("peer-fill-to-edge")
+				return s.peerFill()
+			case x < 85:
+				s.count("read")
+				return s.read()
+			case x < 92:
+				s.count("ack-cumulative")
+				return s.pureAck(0)
+			default:
+				s.count("write")
+				return s.write()
+			}
+		}
 		switch {
 		case x < 25:
 			s.count("write")
@@ -422,6 +474,13 @@ func runScript(seed uint64, idx int, mix string, nev int, kinds map[string]int) 
 	if mix == "c04" && r.Intn(2) == 0 {
 		cfg.RcvBuf = []int{100, 300, 700}[r.Intn(3)]
 	}
+	bigRcv := false
+	if mix == "c04" && !wrapOnly && r.Intn(6) == 0 {
+		// a receive buffer that needs window scaling and can still be filled within one script
+		cfg.RcvBuf = []int{65536, 65537, 70001, 131072, 140000}[r.Intn(5)]
+		cfg.PeerWS = r.Intn(3)
+		bigRcv = true
+	}
 	// placements that make a window edge (not only the next sequence number) cross 2^32 or 2^31
 	// during the script: the receive window's right edge starts just below the boundary, or the
 	// peer's window / the stream itself straddles it
@@ -474,13 +533,24 @@ func runScript(seed uint64, idx int, mix string, nev int, kinds map[string]int) 
 		// keep the case small: the peer still sends small segments
 		s.mss = 120
 	}
+	s.bigRcv = bigRcv
 	plen := 400 + r.Intn(1200)
+	if bigRcv {
+		plen = 300000
+	}
 	s.peer = make([]byte, plen)
 	for i := range s.peer {
 		s.peer[i] = tcpx.PPat(i)
 	}
 	s.maxEnd = c.ISS + 1
 	init := c.Snap()
+	s.rcvScale = uint(init.RcvWndScale)
+	s.advAck = init.RcvNxt
+	w0 := (init.RcvAcc - init.RcvNxt) >> s.rcvScale
+	if w0 > 65535 {
+		w0 = 65535
+	}
+	s.advWnd = uint16(w0)
 	for i := 0; i < nev; i++ {
 		if !s.event() {
 			break
